@@ -19,11 +19,11 @@ INFO = {
         'exact form on the main branch; v within 2% of V on its asymptotic branch; each guard fires exactly below its documented constant '
         '(machine epsilon, 1e-5) and w\'s guard returns 1 below and 0 above zero; wt >= 0 and wt <= 1 + 4*t*|x| bounds where derivable (see outside).'),
     'bounds': {'quick': 'x in [-40, 40], t in [1e-8, 1e-2]; CDF x in [-37.5, 38]', 'thorough': 'same obligations, 3x solver budget, cvc5 re-check of the mode-E queries'},
-    'outside': ['w <= 1 and wt <= 1 (not derivable from the listed axioms)', 'the 1e-6 relative agreement of v and w with V and W in floats',
+    'outside': ['w <= 1 (not derivable from the listed axioms); wt <= 1 exactly (proved: wt <= 1 + t^2)', 'the 1e-6 relative agreement of v and w with V and W in floats',
                 'the 20t + 1e-13/t bound for wt (cancellation analysis not encodable)', 'dense sweeps / ulp neighbourhoods (a solver covers the interval or does not)',
                 'underflow (standard model of floating point without underflow); libm accuracy is an assumption (4 ulp)'],
     'stubs': ['statistics.erf / math.erf / math.erfc -> true function * (1+e), |e| <= 4 ulp (mode E)', 'common._normal -> Phi, phi applications (mode R)'],
-    'axioms': ['T0/T1', 'M1: phi(u) + u*Phi(u) > 0', 'M1u: u < 0 => -u*phi(u) < (u^2+1)*Phi(u)', 'M2: a < b => a(Phi(b)-Phi(a)) < phi(a)-phi(b) < b(Phi(b)-Phi(a))',
+    'axioms': ['T0/T1', 'M1: phi(u) + u*Phi(u) > 0', 'M1u: u < 0 => -u*phi(u) < (u^2+1)*Phi(u)', 'M2: a < b => a(Phi(b)-Phi(a)) < phi(a)-phi(b) < b(Phi(b)-Phi(a))', 'M5/M6: the variance of a standard normal truncated to (a, b) lies in [0, ((b-a)/2)^2]',
                'G: enclosures of Phi on the integer grid, 1e-9 relative', 'A5: |Phi(x+d)-Phi(x)| <= 1.01*Phi(x)*(|x|+1)*|d| for x <= 0, |d| <= 1e-6'],
     'assumptions': ['standard model of floating-point arithmetic (no underflow)', 'libm erf/erfc accurate to 4 ulp'],
 }
@@ -105,7 +105,7 @@ def run_cdf(spec, ctx):
 # ---------------------------------------------------------------------------
 # mode R on v, w, vt, wt
 # ---------------------------------------------------------------------------
-def analytic_axioms(eng):
+def analytic_axioms(eng, moments=False):
     """instances of M1, M1u, M2 at the arguments where both Phi and phi are applied on this path"""
     import z3
     from sx import core
@@ -126,6 +126,11 @@ def analytic_axioms(eng):
         ax.append(z3.Implies(a < 0, -a * p < (a * a + 1) * P))          # M1u
     for (a, P, p), (b, Q, q) in itertools.permutations(pts, 2):
         ax.append(z3.Implies(a < b, z3.And(a * (Q - P) < p - q, p - q < b * (Q - P))))   # M2
+        if moments:
+            m = Q - P                       # mass of (a, b)
+            s_ = (b * q - a * p) * m + (p - q) * (p - q)      # (1 - Var) * m^2
+            ax.append(z3.Implies(a < b, s_ <= m * m))                                        # M6: Var >= 0
+            ax.append(z3.Implies(a < b, s_ >= m * m * (1 - (b - a) * (b - a) / 4)))          # M5: Var <= (half width)^2
     return ax, pts
 
 
@@ -233,22 +238,44 @@ def run_fn(spec, ctx):
                 ax2, _ = analytic_axioms(eng)
                 e = core.lift(ex)
                 obs.append(('exact', '|vt - exact V~| < 2t', z3.Or(o - e >= 2 * t, e - o >= 2 * t), tuple(ax2)))
-                d = core.som(o - e)
-                if not core.is_zero(d):
-                    # then this must be the asymptotic branch: b < 1e-5
-                    obs.append(('guard', 'vt differs from the exact form only where b < 1e-5', core.lift(bb) >= core.rv(1e-5), ()))
             else:
-                obs[-1] = ('sign', 'wt >= 0', o < 0, tuple(ax) + tuple(phi_anchor_axioms(eng, [-8, -9])))
+                # the moment facts are instantiated for the one interval (l, u) = (-t-|x|, t-|x|) this path integrates over
+                neg_side = eng.check(x >= 0, timeout=5000)[0] == 'unsat'
+                pp = -x if neg_side else x
+                _ax, pts_all = analytic_axioms(eng)
+                sel = {}
+                for (a_, P_, p_) in pts_all:
+                    if core.is_zero(core.som(a_ - (-t - pp))):
+                        sel['l'] = (a_, P_, p_)
+                    if core.is_zero(core.som(a_ - (t - pp))):
+                        sel['u'] = (a_, P_, p_)
+                axm = []
+                if 'l' in sel and 'u' in sel:
+                    (a_, P_, p_), (b_, Q_, q_) = sel['l'], sel['u']
+                    m_ = Q_ - P_
+                    s_ = (b_ * q_ - a_ * p_) * m_ + (p_ - q_) * (p_ - q_)
+                    axm = [p_ > 0, q_ > 0, m_ > 0, s_ <= m_ * m_, s_ >= m_ * m_ * (1 - t * t),
+                           a_ * m_ < p_ - q_, p_ - q_ < b_ * m_]
+                anch = tuple(phi_anchor_axioms(eng, [-8.9]))
+                obs[-1] = ('sign', 'wt >= 0', o < 0, tuple(axm) + anch)
+                obs.append(('upper', 'wt <= 1 + t^2', o > 1 + t * t, tuple(axm) + anch))
         for clause, desc, neg, extra in obs:
             if neg is None:
                 ctx.ob(desc + ' (decided on the path)', 'unsat', sample={'function': fn, 'clause': clause, 'path_condition': [str(c)[:120] for c in eng.pc]})
                 continue
+            if extra:
+                # the analytic axiom instances must be consistent with the path (otherwise unsat would be vacuous)
+                rc, _ = eng.check(*extra, timeout=qt)
+                if rc == 'unsat':
+                    ctx.error(f'{fn}/{clause}: analytic axiom instances contradict the path condition (vacuous)')
+                elif rc == 'sat':
+                    ctx.vacuity['false_ob_sat'] += 1
             r, m = eng.check(neg, *extra, timeout=qt)
             sample = {'function': fn, 'clause': clause, 'path_condition': [str(c)[:120] for c in eng.pc], 'negated_obligation': str(neg)[:300],
                       'analytic_axiom_instances': len(extra)}
             if r == 'sat':
                 inp = core.model_inputs(m, ['x', 't'])
-                inp['__alt__'] = [{'x': a, 't': b} for a in (-8.5, -8.2, -7.0, -6.9, -6.78, -5.0, -1.0, 0.0, 0.3, 5.0, 6.9, 7.0, 8.3, 20.0)
+                inp['__alt__'] = [{'x': a, 't': b} for a in (-8.5, -8.3, -8.25, -8.2, -8.15, -8.1, -8.05, -8.0, -7.9, -7.0, -6.9, -6.78, -5.0, -1.0, 0.0, 0.3, 5.0, 6.9, 7.0, 8.3, 20.0)
                                   for b in (1e-8, 1e-5, 1.7e-5, 1e-3, 1e-2)]
                 ctx.ob(f'{fn}: {desc}', 'sat', {'mode': 'fn', 'fn': fn, 'clause': clause, 'inputs': inp}, sample=sample)
             else:
@@ -306,6 +333,17 @@ def replay(cand):
         den = C.phi_major(xv - tv)
         bad = den < EPS and abs(mp.mpf(got) - ex) > ex / 50
         det = f'= {got!r}, exact V = {mp.nstr(ex, 17)}'
+    elif clause in ('guard', 'guardval') and fn in ('v', 'w'):
+        den = C.phi_major(xv - tv)
+        V = mp.npdf(X - T) / mp.ncdf(X - T)
+        ex = V if fn == 'v' else V * (V + (X - T))
+        if den >= EPS:
+            bad = abs(mp.mpf(got) - ex) > mp.mpf('1e-6') * abs(ex) + mp.mpf('1e-300')
+            det = f'= {got!r} with Phi(x-t) = {den!r} above the guard, exact value {mp.nstr(ex, 17)}'
+        else:
+            want = (-(xv - tv)) if fn == 'v' else (1 if xv < 0 else 0)
+            bad = got != want
+            det = f'= {got!r} with Phi(x-t) = {den!r} below the guard, documented asymptotic value {want!r}'
     else:
         bad = False
         det = f'clause {clause} has no float replay'
